@@ -16,6 +16,7 @@ import CookModel.Driver.ScaleM
 import CookModel.Driver.SerdeEq
 import CookModel.Driver.GroupMore
 import CookModel.Driver.FrontMatter
+import CookModel.Driver.RefCheck
 /- Registry of line-protocol handlers. One line per area. -/
 namespace Cook.Driver
 def handlers : List (List String → Option String) := [
@@ -36,6 +37,7 @@ def handlers : List (List String → Option String) := [
   handleScaleM,
   handleSerdeEq,
   handleGroupMore,
-  handleFrontMatter
+  handleFrontMatter,
+  handleRefCheck
 ]
 end Cook.Driver
